@@ -173,6 +173,17 @@ class Ranger:
                 f = dict((a, b) for a, b in n[2])
                 lo, hi = self.rng(f.get("start"), env, at), self.rng(f.get("end"), env, at)
                 return max(hi[1] - lo[0], 0) if lo and hi else None
+            if t == "idx":
+                # a sub-slice `a[..n]` / `a[m..n]` / `a[m..]` of an array or slice
+                m_ = re.search(r"; (\d+)\]$", (n[2] or "").replace("&mut ", "").replace("&", ""))
+                whole = int(m_.group(1)) if m_ else self.len_bound(n[3], env, at)
+                r_ = H.strip(n[4])
+                if H.tag(r_) == "struct" and r_[1].split("<")[0].endswith(("::RangeTo", "::Range", "::RangeFrom", "::RangeFull")):
+                    f_ = dict((a, b) for a, b in r_[2])
+                    en_ = self.rng(f_["end"], env, at) if "end" in f_ else None
+                    c_ = [x for x in (whole, en_[1] if en_ else None) if x is not None]
+                    return min(c_) if c_ else None
+                return None
             if t == "call":
                 p = H.call_path(n) or ""
                 args = H.call_args(n)
@@ -240,9 +251,9 @@ class Ranger:
                 if H.tag(lit) == "struct":
                     fmap = {f: self.rng(fv, env, at) for f, fv in lit[2]}
                     fmap = {k: v for k, v in fmap.items() if v is not None}
-            if not fmap and H.tag(a0) == "local" and self.param_field_range is not None:
+            if not fmap and r is None and H.tag(a0) == "local" and self.param_field_range is not None:
                 b0 = env.get(a0[1], at)
-                if b0 is not None and b0[0] == "param":
+                if b0 is not None and b0[0] == "param" and (b0[1] or "").replace("&mut ", "").lstrip("&") not in INT_TYPES:
                     # the argument is a parameter of the calling function handed on (`self.unit()` inside `extract(&self, ..)`): its fields
                     # have the ranges the callers of the calling function give them
                     fmap = _LazyFields(self.param_field_range, a0[1])
@@ -477,6 +488,25 @@ class Ranger:
                 return (0, lb if lb is not None else LEN_MAX)
             if nm in ("size", "size_uncompressed") and not mc["args"]:
                 return (0, SIZE_MAX)
+            if nm == "sum" and not mc["args"]:
+                # v.iter().map(|x| f(x)).sum(): at most len(v) terms, each within the range of f
+                inner_ = H.strip(mc["recv"])
+                if H.is_mcall(inner_) and H.mcall(inner_)["name"] == "map" and len(H.mcall(inner_)["args"]) == 1:
+                    im_ = H.mcall(inner_)
+                    cl_ = H.strip(im_["args"][0])
+                    lb_ = self.len_bound(im_["recv"], env, at)
+                    if lb_ is not None and H.tag(cl_) == "closure":
+                        e3 = env.child()
+                        for p_ in cl_[2]:
+                            q_ = p_
+                            while H.tag(q_) in ("pref", "pderef"):
+                                q_ = q_[1]
+                            if H.tag(q_) == "bind":
+                                e3.set(q_[1], ("type", q_[4]), at if at is not None else 0)
+                        br_ = self.rng(cl_[3], e3, at)
+                        if br_ is not None and br_[0] >= 0:
+                            return (0, lb_ * br_[1])
+                return None
             if nm == "pow" and len(mc["args"]) == 1 and (mc["path"] or "").startswith("std::num::"):
                 b_, e_ = self.rng(mc["recv"], env, at), self.rng(mc["args"][0], env, at)
                 if b_ is not None and e_ is not None and b_[0] >= 1 and 0 <= e_[0] and e_[1] <= 128 and b_[1] <= (1 << 16):
